@@ -383,7 +383,9 @@ pub fn run(opts: &Opts) -> Report {
     );
     let mut rng = Rng::new(opts.seed);
     let mut model = Model::spawn();
-    let strict = std::env::var("C08_MODEL_STRICT_CUT").map(|v| v != "0").unwrap_or(true);
+    // the model runs with the semantics of the code as it is (a late checkpoint is eligible); the
+    // repaired semantics (strictCut) is the subject of a theorem, not of this run
+    let strict = std::env::var("C08_MODEL_STRICT_CUT").map(|v| v == "1").unwrap_or(false);
     let n = if opts.thorough { 1200 } else { 160 } * opts.scale;
     for case_no in 0..n {
         one_case(&mut rep, &mut model, &mut rng, case_no, false, strict);
